@@ -130,3 +130,13 @@ Proof. induction l as [|a l IH]; intros Hall [x [Hin Hpos]]; [destruct Hin|]. cb
   assert (Ha : (0 <= f a)%R) by (apply Hall; cbn; auto).
   destruct Hin as [->|Hin]; [lra|].
   assert (0 < lsum (map f l))%R by (apply IH; [intros y Hy; apply Hall; cbn; auto | exists x; auto]). lra. Qed.
+
+(** conjugation of an inward pass by a map on the computed values *)
+Lemma inward_conj {A B C} (g : A -> list (A * B) -> B) (g' : A -> list (A * C) -> C) (h : B -> C) :
+  (forall a rs, h (g a rs) = g' a (map (fun r => (fst r, h (snd r))) rs)) ->
+  forall (t : tree A), tmap (fun ab => (fst ab, h (snd ab))) (inward g t) = inward g' t.
+Proof. intros Hh. induction t as [a cs IH] using tree_ind'. cbn.
+  assert (E : map (tmap (fun ab : A * B => (fst ab, h (snd ab)))) (map (inward g) cs) = map (inward g') cs).
+  { induction cs as [|c r IHr]; cbn; auto. inversion IH; subst. f_equal; auto. }
+  rewrite E. f_equal. f_equal. rewrite Hh. f_equal. rewrite <- E. rewrite !map_map.
+  apply map_ext. intros c. destruct (inward g c) as [[x y] ks]. reflexivity. Qed.
